@@ -3,3 +3,5 @@ import Bp7.Props.C01
 #print axioms Bp7.C01.encode_only_crc
 #print axioms Bp7.C01.encode_idem
 #print axioms Bp7.C01.encode_deterministic
+#print axioms Bp7.C01.decode_encode_x
+#print axioms Bp7.C01.encode_idem_x
